@@ -6,7 +6,7 @@
                     "is the trie node of this filter visited (`setRs`) when matching this topic name?"
   * `subMatches`  = is a subscription (shareName, topicFilter) visited by
                     `TrieDB.Iterate(fn, {Type: TypeAll, TopicName: topic, MatchType: MatchFilter})`
-                    (three tries: shared — no `$` rule —, user, system), including the code's
+                    (three tries: shared, user, system), including the code's
                     behaviour for `topic == ""` (no topic restriction at all ⇒ every subscription; F18).
   * `splitTopic` / `fullName` = `subscription.SplitTopic` / `GetFullTopicName`.
 
@@ -32,15 +32,20 @@ def matchLevels : List String → List String → Bool
 /-- `isSystemTopic` -/
 def isSys (s : String) : Bool := s.startsWith "$"
 
+/-- `getMatchedTopicFilter` (since 71aefdf): for a topic name beginning with `$` only the child with exactly the topic's
+    first level is followed, so a filter whose first level is `+` or `#` does not match [MQTT-4.7.2-1] — in every trie. -/
+def trieMatches (filter topic : String) : Bool :=
+  (!isSys topic || (levels filter).head? == (levels topic).head?) && matchLevels (levels filter) (levels topic)
+
 /-- visited by `Iterate(TypeAll, TopicName = topic, MatchFilter)` -/
 def subMatches (share filter topic : String) : Bool :=
   if topic == "" then true
-  else if share != "" then matchLevels (levels filter) (levels topic)
-  else (isSys filter == isSys topic) && matchLevels (levels filter) (levels topic)
+  else if share != "" then trieMatches filter topic
+  else (isSys filter == isSys topic) && trieMatches filter topic
 
 /-- visited by `Iterate(TypeShared, TopicName = topic, MatchFilter)` (shared subscriptions only) -/
 def sharedMatches (filter topic : String) : Bool :=
-  if topic == "" then true else matchLevels (levels filter) (levels topic)
+  if topic == "" then true else trieMatches filter topic
 
 /-- `subscription.SplitTopic` -/
 def splitTopic (t : String) : String × String :=
